@@ -50,12 +50,21 @@ def reduce_paramsets_requirements(paramsets_requirements, paramsets_user_configs
             # if v is a tuple, it's not user-configured, so convert to list
             if v == 'undefined':
                 continue
+            if v is None:
+                # no default exists (e.g. lumi): the user must configure it
+                raise exceptions.InvalidModel(
+                    f"The parameter {paramset_name} requires '{k}' to be configured."
+                )
             if isinstance(v, tuple):
                 v = list(v)
             # this implies user-configured, so check that it has the right number of elements
-            elif isinstance(v, list) and default_v and len(v) != len(default_v):
+            elif (
+                isinstance(v, list)
+                and default_v != 'undefined'
+                and len(v) != combined_paramset['n_parameters']
+            ):
                 raise exceptions.InvalidModel(
-                    f'Incorrect number of values ({len(v)}) for {k} were configured by you, expected {len(default_v)}.'
+                    f"Incorrect number of values ({len(v)}) for {k} were configured by you, expected {combined_paramset['n_parameters']}."
                 )
             elif v and default_v == 'undefined':
                 raise exceptions.InvalidModel(
